@@ -145,8 +145,19 @@ class Moves(Part):
             ind.features['crowding_distance'] = rng.random()
             ind.features['velocity'] = [0.0] * len(bounds)
             swarm.append(ind)
-        for ind in swarm[:3]:
-            alg.leaders.add(ind)
+        if rng.random() < 0.4:
+            # a particle that sits on its own personal best AND is the only leader (the copy of a leader in the first generation): every
+            # attraction term vanishes, the clamp must hold all the same
+            me = swarm[0]
+            me.features['best_vector'] = list(me.vector)
+            alg.leaders.add(me)
+            for other in swarm[1:]:
+                if rng.random() < 0.5:
+                    other.vector = list(me.vector)
+                    other.features['best_vector'] = list(me.vector)
+        else:
+            for ind in swarm[:3]:
+                alg.leaders.add(ind)
         st, res = observe(alg.update_velocity, swarm)
         trace = []
         for ind in swarm:
